@@ -4,6 +4,10 @@ import hashlib, json, os, sys, time, traceback, multiprocessing, re
 VERIF = os.path.dirname(os.path.dirname(os.path.abspath(__file__)))
 EVID = os.path.join(VERIF, "evidence")
 REPLAY = os.path.join(VERIF, "replay")
+if os.environ.get("VERIF_SEEDRUN"):
+    # runs against a deliberately broken copy: keep the real evidence untouched
+    EVID = "/tmp/vf_seed_evidence"
+    REPLAY = "/tmp/vf_seed_replay"
 KNOWN = os.path.join(VERIF, "known_findings.txt")
 NCPU = int(os.environ.get("VERIF_JOBS", "16"))
 
